@@ -136,6 +136,7 @@ type Wire struct {
 	Faults       []Fault
 	prog         atomic.Int64   // bumped by every wire event (wedge monitor)
 	lagging      atomic.Int32   // writes currently sleeping their lag
+	finished     atomic.Bool    // the entry point has returned (a lagging write left behind is then of no interest)
 	PortProblems []string       // source ports that no socket of the process held while probes were sent from them
 	Fired        []*InjectedErr // sentinels of fired fatal faults, in firing order
 	FiredOther   int            // fired non-fatal faults
@@ -175,7 +176,7 @@ func NewWire(world World) *Wire {
 // for 15 s of REAL time without a single wire event, and reports the case it knows to be in flight.
 var activeWire atomic.Pointer[Wire]
 
-const wedgeAfter = 15 * time.Second
+const wedgeAfter = 30 * time.Second
 
 func init() {
 	go func() {
@@ -185,7 +186,7 @@ func init() {
 		for {
 			time.Sleep(time.Second)
 			w := activeWire.Load()
-			if w == nil || w.lagging.Load() == 0 {
+			if w == nil || w.lagging.Load() == 0 || w.finished.Load() {
 				lastWire, last = nil, -1
 				continue
 			}
